@@ -1,7 +1,7 @@
 #!/bin/bash
 # Confirm a seeded change delivered by a sub-agent in /tmp/seed/<pid>/out: builds, suite passes, demo fails with / passes without.
 # usage: seed_confirm.sh <pid> <n>     (writes /verif/seeded/<pid>-<n>/ when confirmed)
-pid=$1; n=$2; W=/tmp/seed/$pid
+pid=$1; n=$2; W=${SEED_BASE:-/tmp/seed}/$pid; TAG=${DEST_TAG:-}
 cd $W || exit 2
 git checkout -q -- . 
 git apply out/change$n.diff || { echo "APPLY-FAIL"; exit 2; }
@@ -14,7 +14,7 @@ ninja -C _b > /dev/null 2>&1
 bash out/demo$n/run.sh $W > out/confirm_demo_without_$n.log 2>&1; without=$?
 echo "ctest_exit=$ct demo_with_change_exit=$with demo_without_exit=$without"
 if [ $ct -eq 0 ] && [ $with -ne 0 ] && [ $without -eq 0 ]; then
-  D=/verif/seeded/$pid-$n; mkdir -p $D
+  D=/verif/seeded/$pid-$TAG$n; mkdir -p $D
   cp out/change$n.diff $D/patch.diff
   rm -rf $D/demo; cp -r out/demo$n $D/demo
   find $D/demo -type f \( -name "*.o" -o -perm -u+x ! -name "*.sh" ! -name "*.py" ! -name "*.pl" \) -size +100k -delete 2>/dev/null
